@@ -1330,11 +1330,13 @@ pub fn run(ctx: &mut Ctx) {
     part_e(&mut d);
 
     d.ctx.trace(|| format!("part E done {:?}", t0.elapsed()));
-    // Part F (thorough): large instances up to the field's capacity.
-    if !quick {
-        let big: [usize; 6] = [4095, 4096, 65535, 65536, (1 << 19) - 2, (1 << 19) - 1];
+    // Part F: large instances up to the field's capacity (the top three lengths and the lengths around
+    // 2^16 in both tiers; quick: one honest batch and one non-binary vector each, thorough: twice, with
+    // alterations).
+    {
+        let big: [usize; 7] = [4095, 4096, 65535, 65536, (1 << 19) - 3, (1 << 19) - 2, (1 << 19) - 1];
         for (i, len) in big.iter().enumerate() {
-            for rep in 0..2u64 {
+            for rep in 0..(if quick { 1u64 } else { 2 }) {
                 if !d.ctx.mine(i as u64 * 2 + rep + 3) {
                     continue;
                 }
@@ -1342,7 +1344,9 @@ pub fn run(ctx: &mut Ctx) {
                 let ms: Vec<Vec<u32>> = (0..2).map(|_| gen_binary(&mut d.rng, *len)).collect();
                 d.honest_batch(&vdaf, *len, &ms, "honest");
                 let m = gen_binary(&mut d.rng, *len);
-                d.alterations(&vdaf, *len, &m, false);
+                if !quick {
+                    d.alterations(&vdaf, *len, &m, false);
+                }
                 if *len < 100_000 || rep == 0 {
                     let mut m = gen_binary(&mut d.rng, *len);
                     let pos = d.rng.usize_below(*len);
@@ -1353,7 +1357,7 @@ pub fn run(ctx: &mut Ctx) {
             }
         }
         // one above capacity must be refused by the constructor (not part of "supported" lengths)
-        if d.ctx.shard == 0 {
+        if !quick && d.ctx.shard == 0 {
             match catch(|| Prio2::new(1 << 19)) {
                 Ok(Err(_)) => d.ctx.count("over_capacity_refused"),
                 Ok(Ok(_)) => d.ctx.note("Prio2::new(2^19) accepted (2n = 2^21 exceeds the 2-adicity of the field)"),
